@@ -44,7 +44,7 @@ ASSUMPTIONS = [
 ]
 BUDGET = {
     "quick": dict(cases=420, shards=4, timeout=600),
-    "thorough": dict(cases=3360, shards=16, timeout=3000),
+    "thorough": dict(cases=8400, shards=16, timeout=3000),
 }
 _EP = ["write_trn", "read_trn", "read_trn_iter", "write_ctm", "read_ctm", "write_textgrid", "read_textgrid",
        "transcript_to_token", "token_to_transcript"]
